@@ -85,6 +85,12 @@ impl<'t, 'a> ArrGen<'t, 'a> {
                 Primary::Lit(Lit::Num(*self.t.choose(&[0.9999999999999999, 1.9999999999999998, 2.0000000000000004, 0.99999999999, 1.0000000000000002, 2.9999999999999996])))
             }
             2 => pvar(&self.frac.clone()),
+            3 if self.t.chance(1, 3) => {
+                // positions that are numbers but no positions: minus zero (it is 0), not-a-number, infinity, a whole
+                // number beyond 2^53, one beyond any length
+                self.labels.insert("odd_number_as_position");
+                pvar(&Name::Simple((*self.t.choose(&["negzero", "notanumber", "endless", "bignumber", "hugenumber"])).into()))
+            }
             3 => pvar(&self.neg.clone()),
             4 => {
                 self.labels.insert("dict_key");
@@ -169,7 +175,12 @@ impl<'t, 'a> ArrGen<'t, 'a> {
                     0 => Stmt::Push { array: sub(pvar(&xn), idx), value: Some(PushRhs::List(vec![num(7.0), num(8.0)])) },
                     1 => Stmt::Push { array: sub(pvar(&xn), idx), value: Some(PushRhs::List(vec![num(7.0), strlit("e"), num(9.0)])) },
                     // (no compound assignment here: whether its subscript is evaluated once or twice is not specified)
-                    _ => Stmt::Assign { dest: Lhs::Subscript(Box::new(pvar(&xn)), Box::new(idx)), value: vec![num(5.0)], op: None },
+                    _ if self.t.chance(1, 2) => Stmt::Assign { dest: Lhs::Subscript(Box::new(pvar(&xn)), Box::new(idx)), value: vec![num(5.0)], op: None },
+                    // the value comes from the same queue as the position: which of the two is taken first shows
+                    _ => {
+                        self.labels.insert("value_and_position_from_one_queue");
+                        Stmt::Assign { dest: Lhs::Subscript(Box::new(pvar(&xn)), Box::new(idx)), value: vec![pe(Primary::Pop(Box::new(pvar(&slots))))], op: None }
+                    }
                 };
                 (vec![st, say(var(&slots))], true)
             }
@@ -397,6 +408,10 @@ impl<'t, 'a> ArrGen<'t, 'a> {
             put(un(UnOp::Minus, num(1.0)), &self.neg.clone()),
             put(num(0.5), &self.frac.clone()),
             put(bin(BinOp::Divide, num(0.0), num(0.0)), &Name::Simple("notanumber".into())),
+            put(bin(BinOp::Multiply, num(0.0), un(UnOp::Minus, num(1.0))), &Name::Simple("negzero".into())),
+            put(bin(BinOp::Divide, num(1.0), num(0.0)), &Name::Simple("endless".into())),
+            put(num(9007199254740993.0), &Name::Simple("bignumber".into())),
+            put(num(1e300), &Name::Simple("hugenumber".into())),
             Stmt::Function {
                 name: self.mutator.clone(),
                 params: vec![mp.clone()],
